@@ -161,7 +161,7 @@ PROPS["C13"] = dict(
     contracts=["contracts.http_parse", "contracts.c13_body", "contracts.c13_leader"], harness="harness.http_native:C13", level="other", trusted_base=HTTP_EXT,
     assumptions=["L-FRAG (lemmas/LFrag.lean): idle-stutter + prefix-stability of every step imply independence of any fragmentation; machine-checked over abstract steps",
                  "parseLeader/parseChunk/parseHead/parseBody steps are not under pyvc contract yet (no coroutine support for next(sub-generator) in the engine): bounded natively"],
-    explanation="PROVED as generators under contract with the environment appending arbitrary bytes (and possibly closing the connection) at every wait: httping.parseLeader, one ARBITRARY turn of its line loop after any history of waits (a wait never consumes; a line is found from position 0 of the whole buffer, so a terminator straddling two reads is found; exactly line + terminator consumed; header stored as name / stripped value; empty line yields the headers; only HTTPException subclasses) -- contracts/c13_leader.py; Requestant.parseBody: a length-delimited body is exactly the next L bytes of the stream, exactly those consumed, PrematureClosure only when closed short; a chunked body is the data chunks in order for any number of chunks; neither -> HTTPException -- contracts/c13_body.py. parseLine (the leaf of every HTTP parser) PROVED per step for symbolic buffers: a step that waits leaves the buffer untouched (idle-stutter); a step that yields a line "
+    explanation="PROVED as generators under contract with the environment appending arbitrary bytes (and possibly closing the connection) at every wait: httping.parseLeader, one ARBITRARY turn of its line loop after any history of waits (a wait never consumes; a line is found from position 0 of the whole buffer, so a terminator straddling two reads is found; exactly line + terminator consumed; header stored as name / stripped value; empty line yields the headers; only HTTPException subclasses) -- contracts/c13_leader.py; Requestant.parseBody and the client-side Respondent.parseBody (plus its read-until-close mode: body = everything received in order until the server closes): a length-delimited body is exactly the next L bytes of the stream, exactly those consumed, PrematureClosure only when closed short; a chunked body is the data chunks in order for any number of chunks; neither -> HTTPException -- contracts/c13_body.py. parseLine (the leaf of every HTTP parser) PROVED per step for symbolic buffers: a step that waits leaves the buffer untouched (idle-stutter); a step that yields a line "
                 "yields the bytes up to the EARLIEST terminator and consumes line+terminator; progress on b implies the same progress on b++e with rest++e (prefix-stability, relational "
                 "two-run VC; z3 with cvc5 taking the str.indexof queries z3 leaves unknown). Proved for eols=(CRLF,); for (CRLF, LF) the code searches by terminator precedence, which is "
                 "a recorded finding. " + HTTP_NOTE)
@@ -209,7 +209,7 @@ PROPS["C18"] = dict(
                 "socket byte stream parsed by an independent strict parser: framing, order, body clamp, close decision. The HTTP/1.0 keep-alive response without a length is a "
                 "recorded finding (not self-delimiting on an open connection).")
 PROPS["C19"] = dict(
-    contracts=["contracts.http_client"], harness="harness.http_native:C19", level="proof",
+    contracts=["contracts.http_client", "contracts.c13_body"], harness="harness.http_native:C19", level="proof",
     trusted_base=["Requester.rebuild/build, Respondent.parse/dictify/reinit, tcp connector tx/close/reopen: EXT summaries (arbitrary result or exception) -- the "
                   "parser side is covered by C13/C15/C18 checks, the connector by the tcp contracts",
                   "copy.copy = shallow copy with equal items; deque.append adds at the right end; urlsplit/unquote/urljoin, httping.normalizeHostPort, "
